@@ -448,6 +448,7 @@ func registerStream() {
 			hugeWorkload(map[string]int{"quick": 48, "thorough": 3000}),
 			procStreamWorkload("cli-streams", map[string]int{"quick": 4000, "thorough": 300000}),
 			cliIncrementalWorkload(map[string]int{"quick": 320, "thorough": 20000}),
+			cliPipeWorkload(map[string]int{"quick": 480, "thorough": 30000}),
 		},
 	})
 }
